@@ -57,10 +57,8 @@ def _closure_sites(fx, g):
     return out
 
 
-def jobs_within_range(fx):
-    obs = []
-    notes = []
-    n = 0
+def job_sites(fx, notes):
+    """Yields (closure, sink call, parent view, block of the closure's construction, evaluator, off, bytes, start, end, sink)."""
     for g in fx.fns.values():
         if not g.is_closure or g.crate != "libxcp":
             continue
@@ -90,31 +88,40 @@ def jobs_within_range(fx):
                 ps.lower.update(cs.lower)
                 ps.upper.update(cs.upper)
                 ps.phi.update(cs.phi)
+                ps.phi_zero.update(cs.phi_zero)
+                ps.divinfo.update(cs.divinfo)
                 ps.weak |= cs.weak
                 ps.opaque.update(cs.opaque)
                 ps.known.update(cs.known)
                 rl = rps[0]
-                nm = ps._lname(rl)
                 start = ps.place({"l": rl, "p": [{"f": 0, "n": "start"}]})
                 end = ps.place({"l": rl, "p": [{"f": 1, "n": "end"}]})
-                for what, goal, txt in (("starts-inside", off - start, "off >= range.start"),
-                                        ("ends-inside", end - off - nbytes, "off + bytes <= range.end")):
-                    if not ps.decided(goal) or not ps.decided(off) or not ps.decided(nbytes):
-                        bad = sorted(a for a in (goal.atoms() | off.atoms() | nbytes.atoms()) if a in ps.opaque or a.startswith("self"))
-                        notes.append(dict(site=q.loc_of(t), goal=txt, undecided="expression does not resolve: %s" % bad[:4],
-                                          off=repr(off), bytes=repr(nbytes)))
-                        continue
-                    ok = ps.prove_nonneg(goal)
-                    if not ok and ps.weak_in(goal):
-                        notes.append(dict(site=q.loc_of(t), goal=txt, off=repr(off), bytes=repr(nbytes),
-                                          undecided="not provable, but a bound of %s did not resolve" % sorted(ps.weak_in(goal))[:3]))
-                        continue
-                    n += 1
-                    obs.append(Ob("R-RANGE", mkkey("R-RANGE", g.root, key.split("::")[-1], 0, what), ok, q.loc_of(t), g.path,
-                                  "block job %s: off = %s, bytes = %s, range = [%s, %s): %s" % (
-                                      txt, off, nbytes, start, end,
-                                      "follows from the arithmetic" if ok else "does NOT follow (%s is not non-negative)" % goal),
-                                  None if ok else dict(off=repr(off), bytes=repr(nbytes), goal=repr(goal))))
+                yield g, t, pv, pb, ps, off, nbytes, start, end, key
+
+
+def jobs_within_range(fx):
+    obs = []
+    notes = []
+    n = 0
+    for g, t, pv, pb, ps, off, nbytes, start, end, key in job_sites(fx, notes):
+        for what, goal, txt in (("starts-inside", off - start, "off >= range.start"),
+                                ("ends-inside", end - off - nbytes, "off + bytes <= range.end")):
+            if not ps.decided(goal) or not ps.decided(off) or not ps.decided(nbytes):
+                bad = sorted(a for a in (goal.atoms() | off.atoms() | nbytes.atoms()) if a in ps.opaque or a.startswith("self"))
+                notes.append(dict(site=q.loc_of(t), goal=txt, undecided="expression does not resolve: %s" % bad[:4],
+                                  off=repr(off), bytes=repr(nbytes)))
+                continue
+            ok = ps.prove_nonneg(goal)
+            if not ok and ps.weak_in(goal):
+                notes.append(dict(site=q.loc_of(t), goal=txt, off=repr(off), bytes=repr(nbytes),
+                                  undecided="not provable, but a bound of %s did not resolve" % sorted(ps.weak_in(goal))[:3]))
+                continue
+            n += 1
+            obs.append(Ob("R-RANGE", mkkey("R-RANGE", g.root, key.split("::")[-1], 0, what), ok, q.loc_of(t), g.path,
+                          "block job %s: off = %s, bytes = %s, range = [%s, %s): %s" % (
+                              txt, off, nbytes, start, end,
+                              "follows from the arithmetic" if ok else "does NOT follow (%s is not non-negative)" % goal),
+                          None if ok else dict(off=repr(off), bytes=repr(nbytes), goal=repr(goal))))
     jobs_within_range.notes = notes
     jobs_within_range.decided = n
     return obs
